@@ -473,6 +473,35 @@ func c13Scenarios(tier string) []Spec {
 				w.appendOp(0, w.a, "x1")
 			}, func() { w.readValues(1, w.a) }}
 		}, A, true),
+		mk("S12-append|join|tostring+manifest+has", 3, b1, func(w *w13) []func() {
+			known := w.a.Heads().Slice()[0]
+			return []func(){func() { w.appendOp(0, w.a, "x1") }, func() { w.joinOp(1, w.a, w.b, -1, "join:A<-B") }, func() {
+				str := w.a.ToString(nil)
+				if n := len(strings.Split(str, "\n")); n < 2 || n > 5 {
+					w.obs.add(2, fmt.Sprintf("tostring-lines: ToString has %d lines for a log of 2..5 entries", n))
+				}
+				jl := w.a.ToJSONLog()
+				if jl.ID != "X" || len(jl.Heads) == 0 || len(jl.Heads) > 2 {
+					w.obs.add(2, fmt.Sprintf("manifest-heads: ToJSONLog lists %d heads", len(jl.Heads)))
+				}
+				seen := map[string]bool{}
+				for _, h := range jl.Heads {
+					if seen[h.String()] {
+						w.obs.add(2, "manifest-duplicate-head")
+					}
+					seen[h.String()] = true
+				}
+				if !w.a.Has(known.GetHash()) {
+					w.obs.add(2, "has-lost-entry: Has() is false for an entry the log held before the run")
+				}
+				if e, ok := w.a.Get(known.GetHash()); !ok || !e.GetHash().Equals(known.GetHash()) {
+					w.obs.add(2, "get-lost-entry: Get() does not return an entry the log held before the run")
+				}
+				if w.a.RawHeads().Len() == 0 {
+					w.obs.add(2, "rawheads-empty")
+				}
+			}}
+		}, A, false),
 		mk("S10-append;append|append", 2, b1, func(w *w13) []func() {
 			return []func(){func() { w.appendOp(0, w.a, "x1"); w.appendOp(0, w.a, "x2") }, func() { w.appendOp(1, w.a, "y1") }}
 		}, A, false),
